@@ -25,6 +25,8 @@ ALPHABETS = {
     "inline": (("t", "text"), {"t": {"inline": True}}),
     # a node type whose NAME is also used as a group name by other types: the exact name wins
     "namegroup": (("a", "b", "c"), {"a": {}, "b": {"group": "a"}, "c": {"group": "a x"}}),
+    # group names that CONTAIN the group name used in the expression (g / gg / xg): only the exact word counts
+    "subgroups": (("a", "b", "c", "g"), {"a": {"group": "g"}, "b": {"group": "gg"}, "c": {"group": "xg y"}}),
     # r is generatable: all its attributes have defaults, one of them an explicit None
     "defnone": (("a", "r"), {"a": {}, "r": {"attrs": {"d": {"default": None}, "e": {"default": 0}}}}),
 }
@@ -72,6 +74,7 @@ def units(tier, seed):
     for k in range(1, 4 if q else 5):
         add("inline", k, "all", 1 if k < 4 else 4)
         add("namegroup", k, "all", 1 if k < 4 else 4)
+        add("subgroups", k, "all", 1 if k < 4 else 4)
         add("defnone", k, "all", 1 if k < 4 else 4)
     # deeper trees over the alphabet with a non-generatable type, ?,*,+ only (dead ends behind accepting states
     # need >= 6 syntax nodes, e.g. "a (a r)?")
